@@ -56,6 +56,20 @@ Theorem C12_dup_arg_same : forall p x y, dup_arg (ECall (FPrim p) [x; y]) = true
 Proof. exact dup_arg_same. Qed.
 Print Assumptions C12_dup_arg_same.
 
+(* nilValReturn: what is flagged is `if x == nil { return .., x, .. }` with side-effect-free x, and there the
+   returned x equals what it was just compared with *)
+Theorem C12_nil_val_return_flagged_pure : forall s, nil_val_return s = true ->
+  sef_typed (nvr_x s) = true /\ In (Some (nvr_x s)) (nvr_results s).
+Proof. exact nil_val_return_flagged_pure. Qed.
+Print Assumptions C12_nil_val_return_flagged_pure.
+
+Theorem C12_nil_val_return_nil : forall en x k vk h h1,
+  env_ok en -> sef_typed x = true -> (forall h', evalS en k h' = Some (RVal vk, h')) ->
+  evalS en (EBinary OEq x k) h = Some (RVal (VBool true), h1) ->
+  h1 = h /\ exists v, evalS en x h1 = Some (RVal v, h1) /\ cmp_val OEq v vk = Some true.
+Proof. exact nil_val_return_nil. Qed.
+Print Assumptions C12_nil_val_return_nil.
+
 Theorem C12_dup_float_exemption_needed :
   cmp_val OEq (VFloat FNaN) (VFloat FNaN) = Some false /\ cmp_val ONe (VFloat FNaN) (VFloat FNaN) = Some true /\
   dup_sub_expr (EBinary OEq (EIdent "x" TFloat) (EIdent "x" TFloat)) = false /\
